@@ -389,7 +389,11 @@ func (r *Run) Rapid(t *testing.T, test string, checks int, prop func(rt *rapid.T
 	fr := r.lastFail[test]
 	r.mu.Unlock()
 	if fr == nil {
-		fr = &failRec{Case: nil, Msg: "rapid reported a failure without a recorded case (panic inside the property?) - see test output"}
+		// the property aborted without recording a failing case (rt.Fatalf("infra: ...") or a
+		// panic in the harness): inconclusive, never a violation
+		fmt.Printf("INFRA: %s: rapid run failed without a recorded case (harness trouble) - see test output\n", test)
+		t.Fail()
+		return
 	}
 	r.Violation(t, test, fr.Case, fr.Msg)
 }
